@@ -7,6 +7,7 @@ import numpy as np
 from hypothesis import strategies as st
 
 from vgv import gen, model as M, objs, obsutil
+from vgv import prelude
 from vgv.framework import Check, guarded
 
 from gym_gridverse.envs.visibility_functions import visibility_function_registry as VIS
@@ -59,6 +60,7 @@ def strat(draw, tier):
 
 
 def oracle(case, ctx):
+    prelude.door_first(ctx)
     sd, area, f = case['state'], case['area'], case['f']
     S = objs.build_state(sd)
     od = guarded(ctx, f'observation {f}', obsutil.observe, f, S, area)
@@ -218,6 +220,7 @@ def strat_extreme(draw, tier):
 def oracle_extreme(case, ctx):
     """every value Generator.random can return is a possible draw: 0.0 must not reveal cells no ray reaches lit, and the
     largest double below 1 must not hide cells that every ray reaches lit"""
+    prelude.door_first(ctx)
     import functools
     from vgv.advrng import AdvRng
     from gym_gridverse.envs import observation_functions as obs_fs
